@@ -18,6 +18,7 @@ import importlib
 import json
 import os
 import random
+import signal
 import sys
 import time
 import traceback
@@ -33,6 +34,10 @@ def setup_paths(repo):
         sys.path.insert(0, p)
     os.environ["PATH"] = os.path.join(HERE, "vendor", "bin") + os.pathsep + os.environ.get("PATH", "")
     sys.dont_write_bytecode = True
+
+
+class CaseTimeout(BaseException):
+    """Per-case watchdog (not an Exception subclass: library code must not swallow it)."""
 
 
 class LibraryReject(Exception):
@@ -74,9 +79,7 @@ class Ctx:
         """Run library code; returns (True, result) or (False, exception)."""
         try:
             return True, fn(*a, **kw)
-        except RecursionError:
-            raise
-        except Exception as e:  # noqa: BLE001 - the monitor observes every outcome
+        except Exception as e:  # noqa: BLE001 - the monitor observes every outcome (RecursionError included)
             e._tb = traceback.format_exc(limit=6)
             return False, e
 
@@ -174,6 +177,12 @@ def main():
     secs = args.secs or budget["secs"]
     seen = set()
     i = 0
+    case_limit = float(os.environ.get("VERIF_CASE_SECS", budget.get("case_secs", 15)))
+
+    def on_alarm(signum, frame):
+        raise CaseTimeout()
+
+    signal.signal(signal.SIGALRM, on_alarm)
     while True:
         if cases is not None:
             if i >= len(cases):
@@ -198,8 +207,19 @@ def main():
         ctx.cur_case = case
         ctx.cur_nontrivial = True
         nv0 = len(ctx.violations)
+        tc0 = time.time()
         try:
-            mod.check(case, ctx)
+            signal.setitimer(signal.ITIMER_REAL, case_limit)
+            try:
+                mod.check(case, ctx)
+            finally:
+                signal.setitimer(signal.ITIMER_REAL, 0)
+        except CaseTimeout:
+            # a case that does not finish is neither held nor violated: counted, and too many make the run inconclusive
+            ctx.count("case_timeouts")
+            del ctx.violations[nv0:]
+            res.setdefault("timed_out_cases", []).append(case if len(res.get("timed_out_cases", [])) < 2 else None)
+            ctx.cur_nontrivial = False
         except RecursionError:
             res["errors"].append("check: RecursionError\n" + json.dumps(case, default=str)[:1500])
         except Exception:  # noqa: BLE001
@@ -207,6 +227,11 @@ def main():
             if len(res["errors"]) > 5:
                 break
         res["cases"] += 1
+        dt = time.time() - tc0
+        if dt > res.get("slowest_case_s", 0):
+            res["slowest_case_s"] = round(dt, 3)
+            if dt > 5:
+                res["slowest_case"] = case
         if ctx.cur_nontrivial:
             h = case_hash(case)
             if h not in seen:
